@@ -47,6 +47,17 @@ def templates(rng):
           ("stack-0", lambda m, x: m.stack([x, b2]), a2),
           ("stack-1", lambda m, x: m.stack((x, b2, x), axis=1), a2),
           ("stack--1", lambda m, x: m.stack((x, b2), axis=-1), a2),
+          ("concatenate-one-block", lambda m, x: m.concatenate([x], axis=0), a2),
+          ("concatenate-one-block-axis-None", lambda m, x: m.concatenate([x], axis=None), a2, True),
+          ("concatenate-one-block-last-axis", lambda m, x: m.concatenate((x,), axis=-1), a2),
+          ("concatenate-axis-None", lambda m, x: m.concatenate([x, b2], axis=None), a2, True),
+          ("vstack-one-block", lambda m, x: m.vstack([x]), a2),
+          ("hstack-one-block", lambda m, x: m.hstack([x]), v3),
+          ("stack-one-block", lambda m, x: m.stack([x]), a2),
+          ("column_stack-one-block", lambda m, x: m.column_stack([x]), v3),
+          ("append-nothing", lambda m, x: m.append(x, []), v3),
+          ("array-copy", lambda m, x: m.array(x), a2),
+          ("copy", lambda m, x: m.copy(x), a2, True),
           ("append", lambda m, x: m.append(x, b2), a2),
           ("append-axis0", lambda m, x: m.append(x, b2, axis=0), a2),
           ("array-nested", lambda m, x: m.array([[x[0], 1.0], [2.0, x[1]]]), v3),
